@@ -10,7 +10,8 @@ from ..absval import Const, norm, const_of, as_bitv, Bytes, Seq, BitV, Lin, Sym,
 from ..interp import Ref, Raised
 from ..tables import regmap, contract
 from .radio import Radio, regname, bits8, term_eq, fmt_bits, regwrites, lift, subst_bits
-from ..model import AnalysisError
+from ..model import AnalysisError, iter_own_nodes
+import ast
 
 ONE_BYTE = [r for r in regmap.CONFIG_REGS if regmap.REGS[r][1] == 1]
 
@@ -458,6 +459,67 @@ def run_address(radio, agg):
     return n
 
 
+def _stores_shadow(f, names):
+    """does the function body itself bind / update one of the shadow attributes (self.<name> = .., self.<name>[i] = .., augmented)?"""
+    for node in iter_own_nodes(f.node):
+        tgs = []
+        if isinstance(node, ast.Assign):
+            tgs = node.targets
+        elif isinstance(node, (ast.AugAssign, ast.AnnAssign)):
+            tgs = [node.target]
+        for t in tgs:
+            for tt in (t.elts if isinstance(t, (ast.Tuple, ast.List)) else [t]):
+                while isinstance(tt, ast.Subscript):
+                    tt = tt.value
+                if isinstance(tt, ast.Attribute) and tt.attr in names and isinstance(tt.value, ast.Name) and tt.value.id == "self":
+                    return True
+    return False
+
+
+def run_rest(radio, agg):
+    """R03.3 for every *other* member of the driver class that stores into a shadow attribute (read-only properties, helpers, methods the
+    contract table does not list): started from the invariant with symbolic arguments, every return must leave shadow == register.
+    Closes the induction: no member outside the scenario tables can break the invariant the tables assume."""
+    names = {p[0] for p in radio.pairs.values() if p}
+    done = {f for (rule, f, _c) in agg.d if rule == "R03.3"}
+    skip = {"__init__", "__enter__", "__exit__"}       # constructor establishes the invariant (rf24state), with-block: C09
+    n = 0
+    cands = []
+    seen = set()
+    for cls in radio.cls.mro:
+        fis = list(cls.methods.values())
+        for pr in cls.props.values():
+            fis += [x for x in (pr.getter, pr.setter) if x is not None]
+        for f in fis:
+            if id(f) in seen or f.name in skip and f.kind == "method":
+                continue
+            seen.add(id(f))
+            if f in done or not _stores_shadow(f, names):
+                continue
+            cands.append(f)
+    # a private helper is judged inside its callers' scenarios (inlined there, with the arguments they really pass): it is run on its own,
+    # with unconstrained arguments, only if some caller chain does not end in an analysed member
+    from .common import allowed_via_callers
+    owners = {g.name for g in done if hasattr(g, "name")} | {f.name for f in cands if not f.name.startswith("_")} | skip
+    cands = [f for f in cands if not (f.name.startswith("_") and not f.name.startswith("__") and allowed_via_callers(radio.prog, f, owners)[0])]
+    for f in cands:
+        n += 1
+        st = radio.fresh()
+        args = [Sym(("param", a), "int") for a in f.params[1:]]
+        try:
+            outs = radio.run(f, args, st)
+        except AnalysisError as e:
+            agg.add("R03.3", f, "member that stores a shadow keeps shadow == register", False, "%s could not be analysed from the invariant with symbolic arguments: %s" % (f.qualname, e))
+            continue
+        for out in outs:
+            if out.kind != "return":
+                continue
+            for r in regmap.CONFIG_REGS:
+                ok, det = radio.shadow_matches(out.state, r)
+                agg.add("R03.3", f, "shadow of %s at exit" % regname(r), ok, "%s(<any>): %s" % (f.name, det))
+    return n, [f.qualname for f in cands]
+
+
 def run(ck):
     ck.explanation = (
         "Static analysis (path-sensitive abstract interpretation over a known-bits domain with per-bit provenance) of every "
@@ -479,6 +541,8 @@ def run(ck):
     na = run_address(radio, agg)
     nc = run_carrier(radio, agg)
     nm = run_misc(radio, agg)
+    nr, rest = run_rest(radio, agg)
+    ck.note_extra = getattr(ck, "note_extra", []) + ["R03.3 closure: members storing a shadow outside the scenario tables: %s" % (rest or "none")]
     agg.flush()
     ck.floor("R03", "setter scenarios", ns, 250)
     ck.floor("R03", "getter scenarios", ng, 120)
